@@ -167,14 +167,21 @@ Definition log2up (n : Z) : Z := match n - 1 with Zpos p => bitlen p | _ => 0 en
 Definition bf_enc (b : Z) (v : Z) (k : Z) : Z := if k =? 0 then 1 else Z.shiftl v (b * (k - 1)).
 Definition bf_get_max (b : Z) (idx : Z) (k : Z) : Z := Z.shiftr idx (b * (k - 1)).
 
-(* ---- Cns_encoding: the table B[j][i] filled by Pascal's rule *)
+(* ---- Cns_encoding: the binomial coefficients C(i,j) (specification of the table B[j][i]) *)
 Fixpoint binom (i j : nat) : Z :=
   match i, j with
   | _, O => 1
   | O, S _ => 0
   | S i', S j' => binom i' j' + binom i' j
   end.
-Definition cns_enc (v : Z) (k : Z) : Z := binom (Z.to_nat v) (Z.to_nat k).
+(* the table as the constructor fills it: row i from row i-1 by B[j][i] = B[j-1][i-1] + B[j][i-1]
+   (the C++ keeps only the columns j <= k; the entries agree where both exist) *)
+Fixpoint zip_add (a b : list Z) : list Z :=
+  match a, b with x :: a', y :: b' => (x + y) :: zip_add a' b' | _, _ => [] end.
+Fixpoint pascal_row (i : nat) : list Z :=
+  match i with O => [1] | S i' => let r := pascal_row i' in zip_add (0 :: r) (r ++ [0]) end.
+Definition binom_tab (i j : nat) : Z := nth j (pascal_row i) 0.
+Definition cns_enc (v : Z) (k : Z) : Z := binom_tab (Z.to_nat v) (Z.to_nat k).
 (* get_max(top, bottom, pred): binary search of the largest w in [bottom, top] with pred w *)
 Fixpoint get_max_loop (fuel : nat) (pred : Z -> bool) (top count : Z) : Z :=
   match fuel with
@@ -234,6 +241,6 @@ Definition encoding_of (c : choice) (n : Z) : encoding :=
 (* spare bits left for the coefficient (num_extra_bits): bitfield: W - b*k; cns: W - log2up(C(n, min(n/2,k)) + 1) *)
 Definition extra_bits (c : choice) (n k : Z) : Z :=
   match c with
-  | C128 => 128 - log2up (binom (Z.to_nat n) (Z.to_nat (Z.min (Z.shiftr n 1) k)) + 1)
+  | C128 => 128 - log2up (binom_tab (Z.to_nat n) (Z.to_nat (Z.min (Z.shiftr n 1) k)) + 1)
   | _ => width c - log2up n * k
   end.
